@@ -196,6 +196,16 @@ def runFrom (t : Nat) (s : St) : List (List (List Pkt)) → List (List Nat) →
       | .error e => .error e
       | .ok (s'', bs) => .ok (s'', (match o with | none => bs | some b => (t, b) :: bs))
 
+/-- the state of a source right after `Sample`/`PrepareChannels`: the groups `Sample` has just made
+(`initGroup`), the chosen first frame number, nothing pending -/
+def startSt (gs : List Group) (f0 : Int) : St := { groups := gs, nextFrame := f0, pend := 0 }
+
+/-- a later Start of the SAME source object: `Sample` begins with `as.nchan = 0` and
+`as.groups = make(map…)`, so the groups, their queues, sync offsets and last numbers of the earlier
+run (`_old`) are unreachable; the dropped-frame counter is a local of the new reader loop.  The
+restarted source is the freshly started one. -/
+def restartSt (_old : St) (gs : List Group) (f0 : Int) : St := startSt gs f0
+
 /-! ### The property as a decidable oracle
 
 Layout of a group: channel count, last start-up sequence number `l0`, sync offset. -/
@@ -333,7 +343,7 @@ def parsePkt : P Pkt := do
   pure { sn, wide := w, data := d }
 
 open P in
-def parseCase : P (Case × Impl) := do
+def parseIn : P Case := do
   kw "f0"; let f0 ← int
   kw "ng"; let ng ← nat
   let groups ← rep (do
@@ -343,11 +353,14 @@ def parseCase : P (Case × Impl) := do
     pure (first, nchan, smp)) ng
   kw "ticks"; let nt ← nat
   let hist ← rep (rep (list parsePkt) ng) nt
-  kw "OUT"
+  pure { f0, groups, hist }
+
+open P in
+def parseOut (cs : Case) : P Impl := do
   let t ← peek
-  if t == some "PANIC" then pure ({ f0, groups, hist }, .panic) else
-  if t == some "ERR" || t == some "HANG" then pure ({ f0, groups, hist }, .err) else
-  let nchans := groups.map (·.2.1)
+  if t == some "PANIC" then pure .panic else
+  if t == some "ERR" || t == some "HANG" then pure .err else
+  let nchans := cs.groups.map (·.2.1)
   let bs ← list (do
     let tk ← nat
     let uni ← nat
@@ -360,7 +373,32 @@ def parseCase : P (Case × Impl) := do
       | n :: ns, rest => rest.take n :: regroup ns (rest.drop n)
     let b : Block := { data := regroup nchans chans, nframes := (chans.headD []).length, dropped := dr, first := ff }
     pure (tk, uni, b))
-  pure ({ f0, groups, hist }, .blocks bs)
+  pure (.blocks bs)
+
+open P in
+def parseCase : P (Case × Impl) := do
+  let cs ← parseIn
+  kw "OUT"
+  let impl ← parseOut cs
+  pure (cs, impl)
+
+open P in
+/-- a restart history: run 1, stop, run 2 on the same source object; the channel count the source
+reports after the second `Sample` -/
+def parseRestart : P (Case × Impl × Case × Nat × Impl) := do
+  kw "restart"
+  let c1 ← parseIn
+  kw "RUN2"
+  let c2 ← parseIn
+  kw "OUT"
+  let o1 ← parseOut c1
+  match o1 with
+  | .blocks _ =>
+    kw "RUN2"; kw "nchan"
+    let n ← nat
+    let o2 ← parseOut c2
+    pure (c1, o1, c2, n, o2)
+  | _ => pure (c1, o1, c2, 0, o1)
 
 def dedupSt (xs : List St) : List St := xs.foldl (fun acc x => if acc.contains x then acc else acc ++ [x]) []
 
@@ -382,11 +420,11 @@ def showBlock (b : Option Block) : String :=
   | none => "none"
   | some b => s!"(nframes {b.nframes} dropped {b.dropped} first {b.first} data {b.data})"
 
-def runLine (ts : List String) : Verdict :=
-  match P.run parseCase ts with
-  | .error e => .bad e
-  | .ok (cs, impl) =>
-    let gs0 := cs.groups.map fun (first, nchan, smp) => initGroup first nchan smp
+def groupsOf (cs : Case) : List Group := cs.groups.map fun (first, nchan, smp) => initGroup first nchan smp
+
+/-- judge one acquisition that the model starts in state `s0` -/
+def judge (cs : Case) (s0 : St) (impl : Impl) : Verdict :=
+    let gs0 := groupsOf cs
     let L : List GL := gs0.map fun g => { nchan := g.nchan, l0 := g.lastSN, sync := g.sync }
     let H := cs.hist
     let allp := (List.range L.length).flatMap fun i => arrOf H i
@@ -395,7 +433,6 @@ def runLine (ts : List String) : Verdict :=
       | f :: _ => f
     let valid := validIn fpp L H
     let perms := permsOf (List.range L.length)
-    let s0 : St := { groups := gs0, nextFrame := cs.f0, pend := 0 }
     -- tags from the model run under the identity order
     let idp := List.range L.length
     let leftover := Id.run do
@@ -470,5 +507,50 @@ def runLine (ts : List String) : Verdict :=
         | none =>
           if out.any (fun (t, _) => t ≥ H.length) then .diff "block attributed to a tick beyond the script" else
           .ok (tags ++ (if valid then [] else ["excluded-unequal-fpp"]) ++ (if out.isEmpty then [] else ["blocks"]))
+
+/-- the model's state after a run (identity map order; any order gives the same observable state) -/
+def finalSt (cs : Case) (s0 : St) : St :=
+  cs.hist.foldl (fun s arr => match tick s arr (List.range cs.groups.length) with
+    | .ok (s', _) => s'
+    | .error _ => s) s0
+
+def runLine (ts : List String) : Verdict :=
+  if ts.head? == some "restart" then
+    match P.run parseRestart ts with
+    | .error e => .bad e
+    | .ok (c1, o1, c2, n2, o2) =>
+      let s1 := startSt (groupsOf c1) c1.f0
+      match judge c1 s1 o1 with
+      | .ok t1 =>
+        (match o1 with
+         | .blocks _ =>
+           let e1 := finalSt c1 s1
+           -- the model of the restart: nothing of run 1 survives
+           (match judge c2 (restartSt e1 (groupsOf c2) c2.f0) o2 with
+            | .ok t2 =>
+              let want := ((groupsOf c2).map (·.nchan)).sum
+              if n2 != want then
+                .viol s!"C03:restart-nchan after the restart the source reports {n2} channels, the groups seen at its start-up have {want}"
+              else
+                .ok (t2 ++ ["restart"] ++ (if e1.groups.any (fun g => !g.queue.isEmpty) then ["restart-leftover"] else []) ++
+                  (if c1.groups.map (fun g => (g.1, g.2.1)) != c2.groups.map (fun g => (g.1, g.2.1)) then ["restart-layout-change"] else []) ++
+                  (if t1.contains "blocks" then ["run1-blocks"] else []))
+            | .viol v => .viol (v ++ " [run 2 of a restart history: the restarted source does not ingest like a fresh one]")
+            | .diff d =>
+              (match o2 with
+               | .err => .viol "C03:restart-error the restarted source fails to start (error/hang) where a fresh source with the same start-up packets runs"
+               | _ => .diff ("run 2 of a restart: " ++ d))
+            | .bad b => .bad b)
+         | _ => .ok (t1 ++ ["restart"]))
+      | .viol v =>
+        (match o1 with
+         | .panic => .viol (v ++ " [restart history: the process died in run 1 or in run 2]")
+         | _ => .viol (v ++ " [run 1 of a restart history]"))
+      | .diff d => .diff ("run 1 of a restart: " ++ d)
+      | .bad b => .bad b
+  else
+  match P.run parseCase ts with
+  | .error e => .bad e
+  | .ok (cs, impl) => judge cs (startSt (groupsOf cs) cs.f0) impl
 
 end DastardV.C03
